@@ -185,10 +185,11 @@ pub fn judge(case: &Case, single: &Single, res: &Res, cx: &mut Ctx) -> Verdict {
                 // parse the imported file itself
                 p.entry = Entry::Path(format!("m.{}", case.syntax.ext()));
             }
-            let t = Duration::from_secs(20);
+            // while shrinking a failure that was already confirmed with the long limits, short ones do
+            let t = Duration::from_secs(if cx.counting || cx.replay { 20 } else { 3 });
             let r1 = cx.worker.one_timeout(&p, t);
             if matches!(r1.outcome, Outcome::Timeout) {
-                let r2 = cx.worker.one_timeout(&p, t);
+                let r2 = if cx.counting || cx.replay { cx.worker.one_timeout(&p, t) } else { r1.clone() };
                 if matches!(r2.outcome, Outcome::Timeout) {
                     return Verdict::Fail(Failure::new(
                         format!("hang:parse:{:?}", case.syntax),
@@ -334,7 +335,11 @@ impl Prop for C01 {
             return Verdict::Discard;
         }
         let single = build_single(case);
-        let res = cx.compile(&single);
+        let res = if cx.counting || cx.replay {
+            cx.compile(&single)
+        } else {
+            cx.worker.one_timeout(&single, Duration::from_secs(3))
+        };
         cx.class(&case.class);
         let oc = match &res.outcome {
             Outcome::Css(_) => "ok",
